@@ -82,7 +82,10 @@ def build(c, ws):
 
 def canon(x, dirpath):
     s = json.dumps(x, sort_keys=True, ensure_ascii=False)
-    return s.replace(dirpath, "<DIR>") if dirpath else s
+    if not dirpath:
+        return s
+    from urllib.parse import quote
+    return s.replace(dirpath, "<DIR>").replace(quote(dirpath), "<DIR>")
 
 
 def describe(op):
